@@ -78,7 +78,7 @@ def run_case(case):
                     counters["point_measurement_calls"] = counters.get("point_measurement_calls", 0) + 1
                     epm = abs(pm - lhs_f) / (sa * (float(np.max(np.abs(F[k]))) or 1.0) or 1.0)
                     resid["point_measurement_vs_weighted_sum"] = max(resid.get("point_measurement_vs_weighted_sum", 0.0), epm)
-                    if epm > (1e-12 if prec == "double" else 1e-6):
+                    if not epm <= (1e-12 if prec == "double" else 1e-6):
                         viol.append({"what": "point_measurement_is_not_the_weighted_sum", "rel": epm, "source_layout": ["C", "F", "transposed view", "strided view"][(case["idx"] + len(viol)) % 4],
                                      "point_cell": (im, jm), "source": skind, "setup": desc})
                 sf = sa * max(float(np.max(np.abs(F[k]))), sF) or 1.0
